@@ -265,6 +265,7 @@ struct Box
   vector<double> lo, hi;
   bool any;
   bool startOnBound;
+  Box() : c(), lo(), hi(), any(false), startOnBound(false) {}
   string text() const
   {
     string s;
@@ -325,8 +326,14 @@ struct Monitor
   bool nonFinite;
   vector<double> last;
   vector<double> vals; // objective value of every evaluation, in order
-  Monitor() : box(nullptr), nEval(0), nInfeasible(0), firstBadAt(0), touched(false), nonFinite(false) {}
-  void reset(const Box* b) { box = b; nEval = 0; nInfeasible = 0; firstBadAt = 0; firstBad.clear(); touched = false; nonFinite = false; last.clear(); vals.clear(); }
+  vector<double> extraRef; // values of the objective's extra parameters (never handed to the judged run) when the judged run starts
+  unsigned long long nExtraMoved; // evaluations of the judged run made with an extra parameter away from that value (evidence only)
+  Monitor() : box(nullptr), nEval(0), nInfeasible(0), firstBadAt(0), touched(false), nonFinite(false), nExtraMoved(0) {}
+  void reset(const Box* b) { box = b; nEval = 0; nInfeasible = 0; firstBadAt = 0; firstBad.clear(); touched = false; nonFinite = false; last.clear(); vals.clear(); extraRef.clear(); nExtraMoved = 0; }
+  void recordExtra(const vector<double>& q)
+  {
+    if (extraRef.size() == q.size() && extraRef != q) ++nExtraMoved;
+  }
   void record(const vector<double>& x, double value)
   {
     ++nEval;
@@ -360,13 +367,19 @@ public:
   vector<string> names_;
   map<string, size_t> index_;
   vector<double> x_;
+  // Optional second, independent group of parameters q0..q(k-1): the objective is f(p) + g(q), g(q) = sum w_j (q_j - t_j)^2 / 2
+  // (block separable, strictly convex).  Used by the re-use histories: the optimiser object first works on the q group, then on the
+  // p group; for the judged run over p the q's are parameters of the function that are not optimised, g(q) is a constant.
+  vector<string> qnames_;
+  vector<double> xq_, qt_, qw_;
   double val_;
   bool d1_, d2_;
   bool recorded_;
   Monitor* mon_;
 
-  Objective(const Problem* pb, const vector<double>& start, Monitor* mon) :
-    AbstractParametrizable(""), pb_(pb), names_(), index_(), x_(start), val_(0), d1_(true), d2_(true), recorded_(false), mon_(mon)
+  Objective(const Problem* pb, const vector<double>& start, Monitor* mon,
+            const vector<double>& qStart = vector<double>(), const vector<double>& qTarget = vector<double>(), const vector<double>& qWeight = vector<double>()) :
+    AbstractParametrizable(""), pb_(pb), names_(), index_(), x_(start), qnames_(), xq_(qStart), qt_(qTarget), qw_(qWeight), val_(0), d1_(true), d2_(true), recorded_(false), mon_(mon)
   {
     for (size_t i = 0; i < pb->n; ++i)
     {
@@ -374,7 +387,20 @@ public:
       index_[names_[i]] = i;
       addParameter_(new Parameter(names_[i], start[i])); // the function's own parameters carry no constraint: it records, it does not police
     }
+    for (size_t j = 0; j < xq_.size(); ++j)
+    {
+      qnames_.push_back("q" + str(j));
+      index_[qnames_[j]] = pb->n + j;
+      addParameter_(new Parameter(qnames_[j], xq_[j]));
+    }
     val_ = pb_->eval(x_);
+    if (!xq_.empty()) val_ += extraValue();
+  }
+  double extraValue() const
+  {
+    double g = 0;
+    for (size_t j = 0; j < xq_.size(); ++j) g += 0.5 * qw_[j] * (xq_[j] - qt_[j]) * (xq_[j] - qt_[j]);
+    return g;
   }
   Objective* clone() const override { return new Objective(*this); }
 
@@ -391,9 +417,22 @@ public:
   bool enableFirstOrderDerivatives() const override { return d1_; }
   void enableSecondOrderDerivatives(bool yn) override { d2_ = yn; }
   bool enableSecondOrderDerivatives() const override { return d2_; }
-  double getFirstOrderDerivative(const string& v) const override { return pb_->d1(x_, idx(v)); }
-  double getSecondOrderDerivative(const string& v) const override { size_t k = idx(v); return pb_->d2(x_, k, k); }
-  double getSecondOrderDerivative(const string& v1, const string& v2) const override { return pb_->d2(x_, idx(v1), idx(v2)); }
+  double getFirstOrderDerivative(const string& v) const override
+  {
+    size_t k = idx(v), n = pb_->n;
+    return k < n ? pb_->d1(x_, k) : qw_[k - n] * (xq_[k - n] - qt_[k - n]);
+  }
+  double getSecondOrderDerivative(const string& v) const override
+  {
+    size_t k = idx(v), n = pb_->n;
+    return k < n ? pb_->d2(x_, k, k) : qw_[k - n];
+  }
+  double getSecondOrderDerivative(const string& v1, const string& v2) const override
+  {
+    size_t k = idx(v1), l = idx(v2), n = pb_->n;
+    if (k < n && l < n) return pb_->d2(x_, k, l);
+    return k == l ? qw_[k - n] : 0.0; // the two groups are separable
+  }
 
 private:
   size_t idx(const string& v) const
@@ -406,9 +445,15 @@ private:
   {
     const ParameterList& pl = getParameters();
     for (size_t i = 0; i < x_.size(); ++i) x_[i] = pl[i].getValue();
+    for (size_t j = 0; j < xq_.size(); ++j) xq_[j] = pl[x_.size() + j].getValue();
     val_ = pb_->eval(x_);
+    if (!xq_.empty()) val_ += extraValue();
     recorded_ = true;
-    if (mon_) mon_->record(x_, val_);
+    if (mon_)
+    {
+      mon_->record(x_, val_);
+      if (!xq_.empty()) mon_->recordExtra(xq_);
+    }
   }
 };
 
@@ -460,7 +505,15 @@ struct Ctx
   bool generous;
   unsigned cap;
   bool clone;
-  bool reuse;       // the optimiser object first runs from another start, then is re-initialised for the judged run
+  bool reuse;       // the optimiser object first runs a warm-up optimisation (not judged), then is re-initialised for the judged run
+  // what the warm-up run of a re-used optimiser object works on:
+  //  0 the same parameter list from another start; 1 another group of parameters of the function, same number; 2 another group, another number;
+  //  3 the same parameters carrying other constraints
+  int reuseMode;
+  vector<double> qStart, qTarget, qWeight; // the other group (modes 1, 2): start, minimiser, curvature per parameter
+  Box qBox;                                 // its constraints
+  Box warmBox;                              // mode 3: the constraints of the warm-up run
+  Ctx() : kind(BFGS), tol(0), generous(true), cap(0), clone(false), reuse(false), reuseMode(0), coord(0), xinf(0), xsup(0), smin(0), q(0), metaN(1) {}
   // 1-D
   size_t coord;
   double xinf, xsup;
@@ -510,10 +563,23 @@ struct Ctx
     return false;
   }
   string consClass() const { return !box.any ? "cons=none" : box.startOnBound ? "cons=start-on-bound" : "cons=some"; }
+  string reuseClass() const
+  {
+    if (!reuse) return "";
+    return reuseMode == 0 ? ":reuse" : reuseMode == 1 ? ":reuse-other-group" : reuseMode == 2 ? ":reuse-other-group-size" : ":reuse-other-constraints";
+  }
+  string reuseText() const
+  {
+    if (!reuse) return "";
+    if (reuseMode == 0) return " (re-used optimiser: warm-up on the same parameter list from the point half way to the minimiser)";
+    if (reuseMode == 3) return " (re-used optimiser: warm-up on the same parameters from the point half way to the minimiser with constraints {" + warmBox.text() + "})";
+    return " (re-used optimiser: warm-up on the " + str(qStart.size()) + " other parameters q of the objective f(p)+sum w_j(q_j-t_j)^2/2, q=" + vrt::vecStr(qStart) + " t=" + vrt::vecStr(qTarget) + " w=" + vrt::vecStr(qWeight) +
+           " constraints {" + qBox.text() + "}; judged run on the p group)";
+  }
   string text() const
   {
     string s = optName() + " policy=" + policy + " " + pb.family() + " n=" + str(pb.n) + " kappa=" + str(pb.kappa) + " lmin=" + str(pb.lmin) + " fmin=" + str(pb.c) +
-        " tol=" + str(tol) + " maxEval=" + str(cap) + (clone ? " (cloned optimiser)" : "") + (reuse ? " (re-used optimiser)" : "") + " m=" + vrt::vecStr(pb.m) + " start=" + vrt::vecStr(start) + " f(start)=" + str(pb.eval(start)) +
+        " tol=" + str(tol) + " maxEval=" + str(cap) + (clone ? " (cloned optimiser)" : "") + reuseText() + " m=" + vrt::vecStr(pb.m) + " start=" + vrt::vecStr(start) + " f(start)=" + str(pb.eval(start)) +
         " constraints={" + box.text() + "}";
     if (isOneD(kind)) s += " coord=" + str(coord) + " interval=[" + str(xinf) + "," + str(xsup) + "] slice-min=" + str(smin) + " start@" + startPos;
     if (kind == META)
@@ -624,6 +690,8 @@ struct RunResult
   bool reportedFeasible;
   string infeasibleCoord;
   vector<double> valsToLastStep; // values of the evaluations made by init() and by the iterations (not by the final re-evaluation)
+  double offset;                 // g(q): contribution of the parameters that are not handed to the judged run (constant during that run)
+  unsigned long long nExtraMoved;
 };
 
 const double F_SLACK = 1e-10;     // descent slack, relative to 1+|f(start)|
@@ -642,8 +710,10 @@ RunResult runOptimizer(const Ctx& c, const vector<size_t>& coords, Monitor& mon,
   r.touched = false;
   r.nInfeasible = r.firstBadAt = 0;
   r.reportedFeasible = true;
+  r.offset = 0;
+  r.nExtraMoved = 0;
   mon.reset(&c.box);
-  shared_ptr<Objective> obj = make_shared<Objective>(&c.pb, c.start, &mon);
+  shared_ptr<Objective> obj = make_shared<Objective>(&c.pb, c.start, &mon, c.qStart, c.qTarget, c.qWeight);
   objOut = obj;
   shared_ptr<OptimizerInterface> opt;
   shared_ptr<StepListener> lis = make_shared<StepListener>(&mon);
@@ -653,16 +723,36 @@ RunResult runOptimizer(const Ctx& c, const vector<size_t>& coords, Monitor& mon,
         if (c.reuse)
         {
           // warm-up run from the point half way between start and minimiser (inside every constraint), not judged
-          ParameterList warm = pl;
-          for (size_t k = 0; k < coords.size(); ++k)
+          ParameterList warm;
+          if (c.reuseMode == 1 || c.reuseMode == 2)
           {
-            double target = isOneD(c.kind) ? c.smin : c.pb.m[coords[k]];
-            warm[k].setValue(0.5 * (c.start[coords[k]] + target));
+            // ... on another group of parameters of the same function (same or different number of parameters, own constraints)
+            for (size_t j = 0; j < c.qStart.size(); ++j)
+            {
+              shared_ptr<ConstraintInterface> cc = c.qBox.c[j];
+              warm.addParameter(Parameter(obj->qnames_[j], 0.5 * (c.qStart[j] + c.qTarget[j]), cc));
+            }
           }
+          else
+          {
+            // ... on the same parameters, with the constraints of the judged run (mode 0) or with other constraints (mode 3)
+            for (size_t k = 0; k < coords.size(); ++k)
+            {
+              double target = isOneD(c.kind) ? c.smin : c.pb.m[coords[k]];
+              shared_ptr<ConstraintInterface> cc = c.reuseMode == 3 ? c.warmBox.c[coords[k]] : c.box.c[coords[k]];
+              warm.addParameter(Parameter(obj->names_[coords[k]], 0.5 * (c.start[coords[k]] + target), cc));
+            }
+          }
+          // other constraints: the function itself is moved to the warm-up start first (the MetaOptimizer starts from the function's
+          // current point, which has to be admissible for the constraints handed to init())
+          if (c.reuseMode == 3) obj->setParameters(warm);
           opt->init(warm);
           opt->optimize();
           obj->setParameters(makeInitList(*obj, c, allCoords(c.pb.n))); // back to the start, also for coordinates that are not optimised
           mon.reset(&c.box);
+          // the other group stays where the warm-up left it: for the judged run it is a constant term of the objective
+          r.offset = obj->extraValue();
+          mon.extraRef = obj->xq_;
         }
         opt->addOptimizationListener(lis);
         opt->init(pl);
@@ -675,6 +765,7 @@ RunResult runOptimizer(const Ctx& c, const vector<size_t>& coords, Monitor& mon,
   r.nInfeasible = mon.nInfeasible;
   r.firstBad = mon.firstBad;
   r.firstBadAt = mon.firstBadAt;
+  r.nExtraMoved = mon.nExtraMoved;
   r.steps = lis->marks_.size();
   if (c.kind == DOWNHILL)
     r.valsToLastStep.assign(mon.vals.begin(), mon.vals.begin() + static_cast<long>(lis->marks_.empty() ? r.eInit : lis->marks_.back()));
@@ -765,7 +856,25 @@ void margin(const string& what, double observed, double allowed)
 
 string budgetClass(const Ctx& c) { return c.generous ? "budget=generous" : c.cap <= 2 ? "budget=0-2" : "budget=small"; }
 
+void judgeRunImpl(const Ctx& c, const vector<size_t>& coords, const RunResult& r, const string& grp);
+
+// Re-use history with another parameter group: during the judged run the objective is f(p) + g(q) with q not handed to the
+// optimiser, i.e. the same family of objective with its minimum value raised by the constant g(q) (q as the warm-up left it).
+// Everything is judged against that function: start value, value at the reported point, minimum.
 void judgeRun(const Ctx& c, const vector<size_t>& coords, const RunResult& r, const string& grp)
+{
+  if (c.reuse && (c.reuseMode == 1 || c.reuseMode == 2))
+  {
+    Ctx cj = c;
+    cj.pb.c += r.offset;
+    if (r.nExtraMoved) vrt::tally("reuse:evaluations-with-unoptimised-parameters-moved:" + c.sigName());
+    judgeRunImpl(cj, coords, r, grp);
+  }
+  else
+    judgeRunImpl(c, coords, r, grp);
+}
+
+void judgeRunImpl(const Ctx& c, const vector<size_t>& coords, const RunResult& r, const string& grp)
 {
   const string on = c.sigName();
   const string base = on + ":" + c.policy;
@@ -800,7 +909,7 @@ void judgeRun(const Ctx& c, const vector<size_t>& coords, const RunResult& r, co
 
   const double fr = c.pb.eval(r.x);
   const string stop = r.tolReached ? "stop=tol" : "stop=cap";
-  vrt::cover(grp + ":" + base + ":" + c.pb.family() + ":" + (c.pb.n == 1 ? "n1" : c.pb.n <= 3 ? "n2-3" : "n4-6") + ":" + c.consClass() + (constrained && r.touched ? "+touched" : "") + ":" + budgetClass(c) + ":" + stop + (c.clone ? ":clone" : "") + (c.reuse ? ":reuse" : ""));
+  vrt::cover(grp + ":" + base + ":" + c.pb.family() + ":" + (c.pb.n == 1 ? "n1" : c.pb.n <= 3 ? "n2-3" : "n4-6") + ":" + c.consClass() + (constrained && r.touched ? "+touched" : "") + ":" + budgetClass(c) + ":" + stop + (c.clone ? ":clone" : "") + c.reuseClass());
 
   // (1) descent
   vrt::expect(fr <= f0 + F_SLACK * (1 + fabs(f0)), "descent", base + ":" + stop, [&] {
@@ -916,6 +1025,48 @@ void pickBudget(vrt::Rng& rng, Ctx& c)
   else c.cap = rng.chance(0.15) ? static_cast<unsigned>(rng.range(0, 2)) : static_cast<unsigned>(rng.logReal(3, 400));
 }
 
+// What the warm-up run of a re-used optimiser object works on (drawn after everything else of the case).
+void pickReuse(vrt::Rng& rng, Ctx& c, const vector<size_t>& coords)
+{
+  c.reuseMode = 0;
+  if (!c.reuse) return;
+  const size_t r = rng.below(100);
+  // the sub-optimisers of a MetaOptimizer are bound to parameter names at construction: same parameters only
+  if (c.kind == META) c.reuseMode = r < 50 ? 0 : 3;
+  else c.reuseMode = r < 25 ? 0 : r < 65 ? 1 : r < 80 ? 2 : 3;
+  if (c.reuseMode == 2 && isOneD(c.kind)) c.reuseMode = 1; // a one-dimensional optimiser takes one parameter
+  const size_t sz = coords.size(), n = c.pb.n;
+  if (c.reuseMode == 1 || c.reuseMode == 2)
+  {
+    size_t k = sz;
+    if (c.reuseMode == 2) k = (sz > 1 && rng.chance(0.5)) ? sz - 1 : sz + 1;
+    // the other group mirrors the geometry of the judged one (same starts / minimisers, so that initial intervals make sense), own curvatures
+    for (size_t j = 0; j < k; ++j)
+    {
+      size_t i = coords[j % sz];
+      c.qStart.push_back(c.start[i]);
+      c.qTarget.push_back(isOneD(c.kind) ? c.smin : c.pb.m[i]);
+      c.qWeight.push_back(rng.logReal(0.1, 10));
+    }
+    // own constraints containing start and minimiser; not under the keep policy (a warm-up that raises is not part of the history wanted here)
+    c.qBox = genBox(rng, c.qStart, c.qTarget, c.policy == AutoParameter::CONSTRAINTS_KEEP || rng.chance(0.3));
+  }
+  else if (c.reuseMode == 3)
+  {
+    // other constraints for the same parameters: they contain the warm-up start and the minimiser, not necessarily the start of the judged run
+    vector<double> warm(c.start), target(c.start);
+    vector<bool> only(n, false);
+    for (size_t k = 0; k < sz; ++k)
+    {
+      size_t i = coords[k];
+      target[i] = isOneD(c.kind) ? c.smin : c.pb.m[i];
+      warm[i] = 0.5 * (c.start[i] + target[i]);
+      only[i] = true;
+    }
+    c.warmBox = genBox(rng, warm, target, c.policy == AutoParameter::CONSTRAINTS_KEEP || rng.chance(0.3), &only);
+  }
+}
+
 // ------------------------------------------------------------------------------------------------
 // group "multi": BFGS, CG, Powell, downhill simplex, SimpleMultiDimensions, SimpleNewtonMultiDimensions
 // ------------------------------------------------------------------------------------------------
@@ -935,9 +1086,10 @@ void caseMulti(vrt::Case& cs)
   c.clone = rng.chance(0.1);
   c.reuse = rng.chance(0.12);
   c.coord = 0; c.xinf = c.xsup = c.smin = c.q = 0; c.metaN = 1;
-  vrt::describe(c.sigName() + ":" + c.policy + ":" + c.pb.family(), c.text());
   vector<size_t> coords;
   for (size_t i = 0; i < n; ++i) coords.push_back(i);
+  pickReuse(rng, c, coords);
+  vrt::describe(c.sigName() + ":" + c.policy + ":" + c.pb.family(), c.text());
   Monitor mon;
   shared_ptr<Objective> obj;
   RunResult r = runOptimizer(c, coords, mon, obj);
@@ -1023,8 +1175,9 @@ void caseOneD(vrt::Case& cs)
   c.clone = rng.chance(0.1);
   c.reuse = rng.chance(0.12);
   c.metaN = 1;
-  vrt::describe(c.sigName() + ":" + c.policy + ":" + c.pb.family(), c.text());
   vector<size_t> coords(1, c.coord);
+  pickReuse(rng, c, coords);
+  vrt::describe(c.sigName() + ":" + c.policy + ":" + c.pb.family(), c.text());
   Monitor mon;
   shared_ptr<Objective> obj;
   RunResult r = runOptimizer(c, coords, mon, obj);
@@ -1078,9 +1231,10 @@ void caseMeta(vrt::Case& cs)
   }
   for (size_t i = 0; i < nparts; ++i)
     if (!c.parts[i].coords.empty()) vrt::cover(string("meta:inner:") + kindName(c.parts[i].kind) + (c.parts[i].full ? "/full" : "/step") + ":" + c.policy);
-  vrt::describe(c.sigName() + ":" + c.policy + ":" + c.pb.family(), c.text());
   vector<size_t> coords;
   for (size_t i = 0; i < n; ++i) coords.push_back(i);
+  pickReuse(rng, c, coords);
+  vrt::describe(c.sigName() + ":" + c.policy + ":" + c.pb.family(), c.text());
   Monitor mon;
   shared_ptr<Objective> obj;
   RunResult r = runOptimizer(c, coords, mon, obj);
@@ -1422,12 +1576,13 @@ int main(int argc, char** argv)
   meta.rule = "Objective = harness test double recording every evaluation: random SPD quadratic c + (x-m)'Q(x-m)/2 (condition <= 1e3, half of them <= 10, smallest eigenvalue in [0.1,10], "
       "c in [1,10], |m| <= 0.5/5/50) or smooth strictly convex non-quadratic sum a_i phi(w_i.(x-m)) + mu|x-m|^2/2, phi in {log cosh, sqrt(1+t^2)-1, t^2/2+t^4/4, t^2/2+max(t,0)^3}; start = m + r u, "
       "r log-uniform in [0.05,10], not already optimal; per coordinate no / two-sided / one-sided interval constraint (open or closed ends) containing start and minimiser, sometimes with the start on a closed end; "
-      "policy auto/keep/ignore; tolerance 1e-4..1e-10; evaluation budget 100000 (convergence judged) or 0..400 (budget judged); optimiser object fresh, cloned (original destroyed) or re-used after a warm-up run. "
+      "policy auto/keep/ignore; tolerance 1e-4..1e-10; evaluation budget 100000 (convergence judged) or 0..400 (budget judged); optimiser object fresh, cloned (original destroyed) or re-used after a warm-up run (on the same parameter list from another start; on another group of "
+      "parameters q of the block-separable objective f(p)+g(q), same or different number of parameters, own constraints; on the same parameters with other constraints). "
       "multi: BFGS, conjugate gradient, Powell, downhill simplex, SimpleMultiDimensions, SimpleNewtonMultiDimensions x dimension 1..6 (index-driven). oned: Brent with outward / inward bracketing, golden section, Newton 1-D on 1-D "
       "objectives and on 1-D slices of n-D ones; initial interval with the start at an end or inside. meta: MetaOptimizer over 1..3 sub-optimisers (7 kinds, iteration type step/full) on a random partition of the parameters "
       "(a part may be empty), 1..4 progressive-precision steps. line: NewtonBacktrackOneDimension on a DirectionFunction, lineSearch, lineMinimization along Newton / steepest / random descent directions. "
       "bracket: bracketMinimum / inwardBracketMinimum on convex slices. A class key = (group, optimiser, policy, objective family, dimension class, constraint class incl. whether a bound was approached, budget class, "
-      "stop by tolerance or by budget, clone/re-use) resp. (line tool, policy, family, direction kind, constraint class, accepted abscissa class) resp. (bracketing routine, family, position of the minimiser); each key is a complete optimisation run.";
+      "stop by tolerance or by budget, clone / kind of re-use) resp. (line tool, policy, family, direction kind, constraint class, accepted abscissa class) resp. (bracketing routine, family, position of the minimiser); each key is a complete optimisation run.";
   meta.assumptions = {
     "descent: f(reported) <= f(start) + 1e-10 (1+|f(start)|), both computed by the pure objective; the start of Brent / golden section is the initial value of the parameter, placed at an end of the initial interval (Brent also inside)",
     "consistency: optimize() and getFunctionValue() equal the objective at getParameters() within 1e-12 relative",
@@ -1440,6 +1595,9 @@ int main(int argc, char** argv)
     "with three or more they need n+1 nearly equal values and the generic bound is applied; always judged: n+1 recorded evaluations and the reported value lie within the relative spread tol of the lowest recorded value",
     "feasibility under auto: every recorded evaluation point and the reported point satisfy isCorrect() of the constraints handed to init()",
     "bracketing: after sorting the triple by abscissa the middle point has a value <= both others, and the three values are the objective at the three abscissas",
+    "re-used optimiser object: the warm-up run is never judged; when it works on another parameter group q of the objective f(p)+g(q), the judged run over p is judged against f(p)+g(q) with q as the warm-up left it "
+    "(a constant: the parameters not handed to init() are parameters of the function that are not optimised), i.e. start value, value at the reported point and minimum all include that constant; "
+    "warm-up constraints are absent under the keep policy (a raising warm-up is not wanted), arbitrary intervals containing warm-up start and minimiser otherwise",
     "the objective's own parameters carry no constraint (it records, it does not police); AutoParameter / IntervalConstraint themselves are trusted here (property C01)",
   };
   meta.requiredClauses = { "run.returns", "descent", "consistent.returned", "consistent.getFunctionValue", "budget.counter", "budget.evaluations", "budget.counter-honest", "feasible.evaluations", "feasible.reported",
